@@ -43,6 +43,7 @@ N_PROBE = {"quick": 6, "thorough": 60}
 
 def plan(tier, seed):
     units = [{"uid": f"probe{i}", "kind": "probe", "i": i} for i in range(N_PROBE[tier])]
+    units.append({"uid": "psprobe", "kind": "psprobe", "i": 0})
     return units + [{"uid": f"p{i}", "i": i} for i in range(N_PROG[tier])]
 
 
@@ -81,10 +82,33 @@ def gen_defn(rng, tier, wraps=None):
     return d
 
 
+def run_ps_probe(unit, ctx):
+    """Known finding proactive-simplify:wrong-value at its fixed witness."""
+    R = K.Result()
+    defn, pt = probes.ps_witness_defn(), probes.ps_witness_point()
+    orc = O.Oracle(defn)
+    b = build.Built(defn)
+    changed = probes.simplify_changed_value(b)
+    for cse in (True, False):
+        m = b.py_model(common_subexpression_elimination=cse)
+        got = monitors.vec_dict(m.model(pt["dt"], m.State(b=pt["b"], x=pt["x"]), m.Control(t=pt["t"])))
+        R.evals += 1
+        vs = monitors.check_named_values(got, orc.model(orc.env(pt)), "model:value", "Model.model (proactive_simplify witness)",
+                                         R.stats, tag="model")
+        if vs and changed:
+            R.stats.inc("probe_known")
+            R.add([K.V(probes.KEY_PS, f"Model.model: {vs[0]['what']}", defn=defn, point=pt, cse=cse)])
+        else:
+            R.add(vs)
+    return R.out()
+
+
 def run_probe(unit, ctx):
     """Exp-overflow region (known finding cse-simplify:exp-overflow), probed on purpose."""
     R = K.Result()
     rng = K.unit_rng(ID, ctx["seed"], unit)
+    if unit.get("kind") == "psprobe":
+        return run_ps_probe(unit, ctx)
     if unit["i"] == 0:
         defn, pts = probes.witness_defn(), probes.witness_points()
         defn = dict(defn, sensors={}, sensor_noises={}, reading_keys={})
@@ -122,9 +146,15 @@ def run_probe(unit, ctx):
 
 
 def run_unit(unit, ctx):
+    # a violation met by a random proactive_simplify program is classified by mechanism (known finding
+    # proactive-simplify:wrong-value) only when sympy.simplify itself changed the user's function
+    return probes.reclassify_ps(_run_unit(unit, ctx))
+
+
+def _run_unit(unit, ctx):
     from formak import python  # noqa: F401
 
-    if unit.get("kind") == "probe":
+    if unit.get("kind") in ("probe", "psprobe"):
         return run_probe(unit, ctx)
     R = K.Result()
     rng = K.unit_rng(ID, ctx["seed"], unit)
